@@ -625,6 +625,11 @@ def run(F, R, config=None):
     K.borrow_rule(R, lambda sub: c05.r2(F, sub), "C18-R6", "the leapfrog hands out LeapfrogResult::Ok only under an energy gate that a NaN or infinite energy error cannot pass "
                   "(C05-R2 analysis): a state whose momentum left the unit sphere through a NaN density is rejected / retried, never accepted", only_rules={"C05-R2"})
     # "round(subsample_frequency * L / eps) steps", "dynamic_step_size", "trajectory kind": stated in terms of the MCLMC settings, so the chain must get them as set
+    # "a faulted step is retried with a smaller step": the factor must scale the whole step - both momentum half-steps and the position step
+    from . import c02
+    K.borrow_rule(R, lambda sub: c02.r1_r2(F, sub), "C18-R8", "the retry's step_size_factor scales every sub-step alike: the velocity half-steps before and after the "
+                  "density evaluation use the same scalars and the position step uses exactly twice a half-step's (C02-R2 analysis); a position step that ignores "
+                  "the factor moves a full step while momentum and time account for half of it", only_rules={"C02-R2"})
     from . import convert
     convert.faithful_conversion(F, R, "C18-R7", focus=lambda path, key: "MclmcSettings" in path, focus_text=" (the MCLMC presets)")
     R.assume("the ESH closed form and its kinetic-energy change are numerical identities and not decided")
